@@ -590,6 +590,11 @@ def c05_work(item, ctx):
                     lines += d[:cut] if len(d) < 400 else d[:rng.randint(1, 140)]
                 else:
                     lines.append("tick %d" % rng.choice([1, 10, 100]))
+            if rng.random() < 0.15:
+                # reconfiguration of the SDO client parameters through this server: no concern of the server itself
+                v = rng.choice([0x80000000, 0x80000600, 0x600, 0x580, 0x80000580, 0x67F]) + rng.choice([0, 2, world.nid])
+                lines.insert(rng.randint(0, len(lines)), "rx %x 8 %s" % (g.sdo_req_id(0), (bytes([0x23, 0x80, 0x12, rng.choice([1, 2])]) + (v & 0xFFFFFFFF).to_bytes(4, "little")).hex()))
+                res.counters["client_parameter_writes"] += 1
             lines = [l.replace("rx %x " % g.sdo_req_id(0), "rx %x " % world.req_id(0)) for l in lines]
             for evs in sim.batch(lines):
                 for iv in S.invs(evs):
